@@ -197,7 +197,7 @@ class C11(Check):
         p = gen_params(rng)
         if str(p.get("cosmology", "")).startswith(("custom", "flcdm")):
             p["cosmology"] = "WMAP7"  # only named cosmologies can be serialised (documented)
-        cfg = Configuration.create(**realise(p))
+        cfg = Configuration.create(**realise(p, numpy_types=case["seed"] % 3 == 1))
         path = tmp / "config.yml"
         tag = "custom-edges" if "edges" in p else p["method"]
         try:
